@@ -55,6 +55,15 @@ CLAIMED = {
                 "Known finding F24: walls + non-diagonal inverse mass are not reversible.",
         "ref": "DESIGN.md section 3 C07",
     },
+    "C13": {
+        "technique": "Hdi.tla: declarative Good predicate + algorithm model, AlgorithmIsGood model-checked by TLC over every small sample "
+                     "and fraction; every enumerated case run through the real sample_hdi in 8 call variants and judged by HdiTrace.tla",
+        "text": "Exhaustive over samples of length 2..5 over 4 levels (quick) / 2..6 over 5 levels (thorough) and all fractions k/16, plus "
+                "seeded random samples up to 40 values with ties; TLC evaluates Good on the returned pair (any optimal window accepted), "
+                "equality of list/int/float/2-D-column variants, permutation invariance, affine covariance and input-unchanged.",
+        "note": "Trusted: TLC. Integer-valued samples and dyadic fractions; float-valued samples only through the exact float copies.",
+        "ref": "DESIGN.md section 3 C13",
+    },
     "C14": {
         "technique": "Readout.tla selection operator and IntervalOK predicate; TLC enumerates every (n, burn, thin) and the real read-outs of "
                      "all five samplers are compared id by id; every get_interval call is validated by ReadoutTrace.tla",
